@@ -203,8 +203,28 @@ def list_reader_vc(S, prefix='list-reader'):
                        T(outs[0]) == z3.Concat(datestr, SV(' '), loc))
 
     # the selector/scanner is abstracted: an arbitrary sequence of events
+    def list_loop_annot():
+        def element(I, env, seq, i):
+            I.ctx.ghost['yield_mark_ev'] = len(I.ctx.ghost['yielded'])
+            ev = purge.trash_dir_element(I, env, seq, i)
+            I.ctx.ghost['cur_event'] = ev
+            return ev
+
+        def at_iter_end(I, env, seq, i, x):
+            ctx = I.ctx
+            ev = ctx.ghost['cur_event']
+            name = ev[0].payload
+            if name.startswith('trash_dir_skipped'):
+                msgs = ctx.ghost['yielded'][ctx.ghost['yield_mark_ev']:]
+                outs, errs = classify(msgs)
+                ctx.oblige(prefix + '/skipped-trash-dir-is-reported-on-stderr',
+                           z3.And(z3.BoolVal(len(errs) == 1 and not outs),
+                                  *[z3.Contains(T(e), T(ev[1][0])) for e in errs]))
+        return LoopAnnot(abstract=True, element=element,
+                         at_iteration_end=at_iter_end)
+
     loops = {ENTRIES_LOOP: purge.entries_loop_annot(at_end),
-             LIST_LOOP: purge.only_found_annot(),
+             LIST_LOOP: list_loop_annot(),
              PARSE_PATH_LOOP: purge.parse_path_loop_annot(),
              dates.PARSE_LOOP: dates.parse_loop_annot()}
 
